@@ -119,7 +119,9 @@ def a_step(fire, acc_len, n):
     payload = sx.sym_bytes("p", n)
     sock = FakeSock([server_frame(fin, opcode, payload), "eof"])
     ws = new_ws(sock, fire_cont_frame=fire, skip_utf8_validation=True)
-    cf = ws.cont_frame
+    cf = sx.unit(ws, "cont_frame")  # the reassembler's state is set directly (inductive step): private attributes
+    sx.unit(cf, "recving_frames")
+    sx.unit(cf, "cont_data")
     if in_msg == 1:
         cf.recving_frames = first_op
         cf.cont_data = None if fire else [first_op, acc]
